@@ -207,3 +207,61 @@ func VC_C12_struct_forms() {
 	verifAssert(!vDiverted((*vT12v).P) && !vDiverted(vT12v.V), "C12.forms.reset-restores")
 	verifReached("C12.forms")
 }
+
+type vCfg12 struct {
+	Name  string
+	Limit [2]int
+}
+
+var vCfgA12, vCfgB12 vCfg12
+var vSliceA12, vSliceB12 []int
+
+// VC_C12_var_composite: the variable handle for variables of struct and slice type: a
+// repeated lookup continues the live mocker whatever the variable currently holds, two
+// variables with equal contents have separate mockers, Cancel through a second lookup
+// restores, Reset restores both to their pre-mock values.
+func VC_C12_var_composite() {
+	vEnv()
+	x, y := verifInt("x"), verifInt("y")
+	orig := vCfg12{Name: "orig", Limit: [2]int{x, x}}
+	vCfgA12, vCfgB12 = orig, orig // equal contents, two variables
+	vSliceA12, vSliceB12 = []int{x}, []int{x}
+	b := Create()
+	if verifBool("slices") {
+		m1 := b.Var(&vSliceA12)
+		m1.Set([]int{y, y})
+		verifAssert(len(vSliceA12) == 2 && len(vSliceB12) == 1, "C12.var-composite.set-writes-the-named-variable-only")
+		m2 := b.Var(&vSliceA12)
+		verifAssert(m1 == m2, "C12.var-composite.same-live-mocker")
+		mb := b.Var(&vSliceB12)
+		verifAssert(mb != m1, "C12.var-composite.other-variable-has-its-own-mocker")
+		mb.Set([]int{y, y, y})
+		verifAssert(len(vSliceA12) == 2 && len(vSliceB12) == 3, "C12.var-composite.set-writes-the-named-variable-only")
+		if verifBool("cancelSecondLookup") {
+			b.Var(&vSliceA12).Cancel()
+			verifAssert(len(vSliceA12) == 1 && vSliceA12[0] == x, "C12.var-composite.cancel-through-second-lookup-restores")
+		}
+		b.Reset()
+		verifAssert(len(vSliceA12) == 1 && vSliceA12[0] == x && len(vSliceB12) == 1 && vSliceB12[0] == x, "C12.var-composite.reset-restores-pre-mock-values")
+		verifReached("C12.var-composite.slices")
+		return
+	}
+	m1 := b.Var(&vCfgA12)
+	m1.Set(vCfg12{Name: "m1", Limit: [2]int{y, y}})
+	verifAssert(vCfgA12.Name == "m1" && vCfgB12 == orig, "C12.var-composite.set-writes-the-named-variable-only")
+	m2 := b.Var(&vCfgA12)
+	verifAssert(m1 == m2, "C12.var-composite.same-live-mocker")
+	m2.Set(vCfg12{Name: "m2", Limit: [2]int{y, x}})
+	verifAssert(vCfgA12.Name == "m2", "C12.var-composite.latest-set-wins")
+	mb := b.Var(&vCfgB12)
+	verifAssert(mb != m1, "C12.var-composite.other-variable-has-its-own-mocker")
+	mb.Set(vCfg12{Name: "b"})
+	verifAssert(vCfgA12.Name == "m2" && vCfgB12.Name == "b", "C12.var-composite.set-writes-the-named-variable-only")
+	if verifBool("cancelSecondLookup") {
+		b.Var(&vCfgA12).Cancel()
+		verifAssert(vCfgA12 == orig, "C12.var-composite.cancel-through-second-lookup-restores")
+	}
+	b.Reset()
+	verifAssert(vCfgA12 == orig && vCfgB12 == orig, "C12.var-composite.reset-restores-pre-mock-values")
+	verifReached("C12.var-composite.structs")
+}
